@@ -224,7 +224,7 @@ def lane_facts(ctx, source, family, groups, cfg_filter=None, extra_defs=(), args
 # ----------------------------------------------------------------------
 # ordered traces (register programs, histories): one file per (config, unit)
 # ----------------------------------------------------------------------
-def ordered_traces(ctx, source, family, groups, module, suffix, cfg_filter=None, extra_defs=(), libs=(), extra=(), cfgs=None):
+def ordered_traces(ctx, source, family, groups, module, suffix, cfg_filter=None, extra_defs=(), libs=(), extra=(), cfgs=None, cfg_for=None):
     """Build and run <source>; the driver writes <prefix>.<unit><suffix> ndjson traces.
     Byte-identical traces (same program, same observations) are validated once.
     Returns number of distinct traces validated."""
@@ -256,7 +256,8 @@ def ordered_traces(ctx, source, family, groups, module, suffix, cfg_filter=None,
             classes.setdefault(sha, []).append((tag, unit, p))
     paths = [v[0][2] for v in classes.values()]
     ctx.log('%d traces, %d distinct; TLC (%s) ...' % (sum(len(v) for v in classes.values()), len(paths), module))
-    res = tlc.validate_chunks(module, paths, ctx.scratch, family + '_tr', parallel=16)
+    cfg_texts = [cfg_for(v[0][1]) for v in classes.values()] if cfg_for else None     # per-unit TLC constants
+    res = tlc.validate_chunks(module, paths, ctx.scratch, family + '_tr', parallel=16, cfg_texts=cfg_texts)
     for (cnt, rej), members in zip(res, classes.values()):
         ctx.ev['states'] += cnt + 1
         ctx.ev['transitions'] += cnt + 1
